@@ -248,7 +248,7 @@ func cmdC07(args []string) {
 			var must, rest []injPoint
 			for _, pt := range pts {
 				switch opKind(base[pt.op]) {
-				case "set", "del", "setroot", "copy", "write":
+				case "set", "del", "setroot", "copy", "write", "revert":
 					must = append(must, pt)
 				case "iter", "visit":
 					if *prof == "C11" {
